@@ -11,6 +11,7 @@ import (
 	"math/big"
 	"sort"
 	"strings"
+	"sync"
 
 	"verif/ref/reftx"
 )
@@ -323,17 +324,80 @@ func (m *Model) Valid(n *Node) bool {
 		return false
 	}
 	u := UTXO{}
-	for k, v := range n.Parent.utxo {
+	for k, v := range m.utxoOf(n.Parent) {
 		u[k] = v
 	}
 	why := m.ConnectOn(u, n.Block, n.Height, n.Parent)
+	cacheMu.Lock()
 	n.validKnown = true
 	n.valid = why == ""
 	n.why = why
 	if n.valid {
 		n.utxo = u
 	}
+	cacheMu.Unlock()
 	return n.valid
+}
+
+// The per-node unspent sets are a cache: Compact drops them far from the leaves (a long
+// linear prefix would otherwise hold one full copy per block) and utxoOf rebuilds a
+// dropped one by replaying from the nearest ancestor that still has its set. Nodes are
+// shared between a model and its clones, so the cache is filled under one lock.
+var cacheMu sync.Mutex
+
+func (m *Model) utxoOf(n *Node) UTXO {
+	cacheMu.Lock()
+	defer cacheMu.Unlock()
+	if n.utxo != nil {
+		return n.utxo
+	}
+	var path []*Node
+	a := n
+	for a.utxo == nil {
+		path = append(path, a)
+		a = a.Parent
+	}
+	u := UTXO{}
+	for k, v := range a.utxo {
+		u[k] = v
+	}
+	for i := len(path) - 1; i >= 0; i-- {
+		x := path[i]
+		if why := m.ConnectOn(u, x.Block, x.Height, x.Parent); why != "" {
+			panic("refchain: a node known to be valid does not replay: " + why)
+		}
+	}
+	n.utxo = u
+	return u
+}
+
+// Compact drops the cached unspent sets of all valid nodes that are more than keep
+// blocks above every leaf. Call it only while no clone of the model is in use.
+func (m *Model) Compact(keep int) {
+	cacheMu.Lock()
+	defer cacheMu.Unlock()
+	hasChild := map[*Node]bool{}
+	for _, n := range m.Nodes {
+		if n.Parent != nil {
+			hasChild[n.Parent] = true
+		}
+	}
+	near := map[*Node]bool{}
+	for _, n := range m.Nodes {
+		if hasChild[n] {
+			continue
+		}
+		x := n
+		for i := 0; i <= keep && x != nil; i++ {
+			near[x] = true
+			x = x.Parent
+		}
+	}
+	for _, n := range m.Nodes {
+		if n.Parent != nil && !near[n] {
+			n.utxo = nil
+		}
+	}
 }
 
 // UTXOAt returns the unspent set after a valid node (a copy).
@@ -342,7 +406,7 @@ func (m *Model) UTXOAt(n *Node) UTXO {
 		return nil
 	}
 	u := UTXO{}
-	for k, v := range n.utxo {
+	for k, v := range m.utxoOf(n) {
 		u[k] = v
 	}
 	return u
